@@ -149,6 +149,7 @@ def u_user_argument(v: str) -> bool:
     g.usage = 'parse'
     aparser.add_user_argument(g, '--name', metavar='V', default='dflt')
     aparser.add_user_argument(g, '--feat', action='enable', default=False)
+    aparser.add_user_argument(g, '--opt', action='with', default=False)
     try:
         aparser.add_user_argument(g, '--x-bad')
         return R(False)
@@ -159,7 +160,10 @@ def u_user_argument(v: str) -> bool:
         b = p.parse_args(['--x-name', v])
         c = p.parse_args(['--name=' + v, '--enable-feat'])
         d = p.parse_args(['--x-name=' + v, '--x-enable-feat', '--x-disable-feat'])
+        e = p.parse_args(['--x-enable-feat', '--x-with-opt', '--name', v])
+        f = p.parse_args(['--enable-feat', '--x-without-opt', '--with-opt', '--x-name', v])
     except SystemExit:
         return R(False)      # argparse rejected a spelling
     return R(a.name == v and b.name == v and c.name == v and d.name == v and
-             vars(a) == vars(b) and c.feat is True and d.feat is False and a.feat is False)
+             vars(a) == vars(b) and c.feat is True and d.feat is False and a.feat is False and
+             e.feat is True and e.opt is True and e.name == v and vars(e) == vars(f))
